@@ -5,7 +5,7 @@ import ast
 import re
 
 from ..core.absint import AV, Alt, App, Const, DictV, EnumM, ListV, Obj, Outcome, Rep, State, StrT, Sym, walk_av
-from ..core.ctx import GEN, TYPES_MOD, VISITOR, Ctx
+from ..core.ctx import DOCPARSER, GEN, GETAPI, HELPERS, TYPES_MOD, VISITOR, WALKER, Ctx
 from ..core.report import Collector
 from ..core.source import AnalysisError
 from .common import GENCLS, apps, fmt_facts, gen_state, mentions, render
@@ -47,6 +47,8 @@ def check(ctx: Ctx, col: Collector, tier: str) -> None:
              "provenance tags (dedup/sorted) of the joined sequence + path facts of the nullable return", floor=3)
     col.spec("C05.POSITIONS", "the same translator is used in every position where a type can occur",
              "call sites of the translator pair in parameter/result/attribute extraction and rendering", floor=8)
+    col.spec("C05.INPUT-UNMODIFIED", "every position hands the translator the type mypy analysed: the analyser never writes into mypy's node and type objects",
+             "typed inventory (mypy as a library) of attribute / item stores in the analyser whose receiver is a mypy object", floor=10)
     col.spec("C05.NONE-TEST", "tests that recognise the none type test the name of the same subject as its kind",
              "contradiction/self-conjunction check on the conditions of the union branch", floor=1)
 
@@ -177,6 +179,29 @@ def check(ctx: Ctx, col: Collector, tier: str) -> None:
                 "hash-order dependent member order in union<…>")
     else:
         col.ok("C05.UNION-NORMAL", key, repo.loc(GEN, unions[0].node), f"{len(unions)} union paths: member list is de-duplicated and sorted")
+    # the Literal members of a union are merged into one literal type: every value of every member, in order, once
+    merged = []
+    for o in outs:
+        for e in o.effects:
+            if e.target.endswith(".append") and e.args and isinstance(e.args[0], DictV):
+                d = {k.v: v for k, v in e.args[0].items if isinstance(k, Const)}
+                if d.get("kind") == Const("LiteralType") and "literals" in d:
+                    merged.append((e, d["literals"]))
+    key = f"{gkey}::union::literal-merge"
+    probs = []
+    for e, v in merged:
+        if not isinstance(v, ListV):
+            probs.append(f"`literals` is {render(v)[:80]}")
+        elif v.tags & {"dedup", "sorted", "sorted+edit", "unordered"}:
+            probs.append(f"`literals` passes {sorted(v.tags)}")
+        elif not v.items or not all(isinstance(x, Sym) and x.path.endswith("['literals'][*]") for x in v.items):
+            probs.append(f"`literals` is built from {[render(x)[:50] for x in v.items]}")
+    if probs or not merged:
+        col.bad("C05.UNION-NORMAL", key, repo.loc(GEN, merged[0][0].node if merged else gfi.node), "; ".join(sorted(set(probs))) or "merge site not found",
+                "the values of the Literal members of a union are not concatenated as they are (" + (sorted(set(probs)) or ["no merge"])[0] + "): a de-duplication by == drops `True` next to `1` "
+                "(or `0` next to `False`), a sort reorders the values")
+    else:
+        col.ok("C05.UNION-NORMAL", key, repo.loc(GEN, merged[0][0].node), f"{len(merged)} merge effect(s): the merged literal list is the flat concatenation of the members' value lists")
     nullable = [o for o in rets if render(o.value).endswith("?") and not render(o.value).startswith("union<")]
     key = f"{gkey}::union::nullable"
     bad = []
@@ -196,6 +221,29 @@ def check(ctx: Ctx, col: Collector, tier: str) -> None:
     else:
         col.bad("C05.UNION-NORMAL", key, repo.loc(GEN, gfi.node), f"{len(single)} paths", "one-member unions are not collapsed to the member under len == 1")
 
+    # ------------------------------------------------------------------ INPUT-UNMODIFIED
+    from ..core.mypyfacts import MypyFacts
+    mf = MypyFacts(repo)
+    col.trust("mypy (the repository's own dependency) expression types")
+    for rel in (VISITOR, HELPERS, GETAPI, WALKER, DOCPARSER):
+        mi = repo.module(rel)
+        for fi in mi.functions.values():
+            for n in ast.walk(fi.node):
+                tgts = n.targets if isinstance(n, ast.Assign) else [n.target] if isinstance(n, (ast.AugAssign, ast.AnnAssign)) else []
+                for t in tgts:
+                    for sub in ([t] if not isinstance(t, (ast.Tuple, ast.List)) else t.elts):
+                        if not isinstance(sub, (ast.Attribute, ast.Subscript)):
+                            continue
+                        col.touched(fi)
+                        ty = mf.type_of(rel, sub.value) or "?"
+                        key = f"{rel}::{fi.qualname}::store::{ast.unparse(sub)[:60]}"
+                        lib = any(re.match(r"mypy\.(nodes|types)\.\w+", alt.strip()) for alt in top_level_alternatives(ty))
+                        if lib:
+                            col.bad("C05.INPUT-UNMODIFIED", key, repo.loc(rel, n), f"`{ast.unparse(n)[:80]}`: receiver type {ty[:60]}",
+                                    f"{fi.qualname} writes into a mypy object (`{ast.unparse(sub)[:50]}`, a {ty[:40]}): the type that reaches the translator in this position is no longer the "
+                                    f"one mypy analysed (e.g. `x: list[Optional[int]]` as a class attribute becomes List<Optional> while a parameter gives List<Int?>)")
+                        else:
+                            col.ok("C05.INPUT-UNMODIFIED", key, repo.loc(rel, n), f"receiver type {ty[:60]}: not a mypy object", nontrivial=ty != "?")
     # ------------------------------------------------------------------ NONE-TEST (self-conjunctions in conditions)
     probs = []
     for n in ast.walk(gfi.node):
@@ -443,3 +491,20 @@ def check(ctx: Ctx, col: Collector, tier: str) -> None:
         col.ok("C05.POSITIONS", key, repo.loc(VISITOR, cfi.node), f"{n} rewrite(s) of .args, all under NameExpr and explicit annotation")
     col.assume("agreement with an independent reference translation of arbitrary nested annotations is not decided "
                "(needs mypy's analysis of the annotation text); unanalyzed_type special cases are not decided")
+
+
+def top_level_alternatives(ty: str) -> list[str]:
+    """Members of a union type as printed by mypy, split at the top nesting level only."""
+    out, depth, cur = [], 0, ""
+    for ch in ty:
+        if ch in "[(":
+            depth += 1
+        elif ch in "])":
+            depth -= 1
+        if ch == "|" and depth == 0:
+            out.append(cur)
+            cur = ""
+        else:
+            cur += ch
+    out.append(cur)
+    return out
